@@ -45,7 +45,7 @@ P = 'C09'
 BUDGETS = {'C09': (75, 1200, 40)}
 LEVELS = {'C09': 'exploration'}
 ALLOWED = (ServerError, ProtocolError, SSLVerificationError, NetworkError)
-PROBES = {'C09': ['layer.http', 'layer.web', 'layer.robots', 'layer.ftp', 'layer.crawl', 'robots_redirected_to_other_origin', 'crawl_with_warc', 'crawl_url_rewriting_option', 'crawl_post_data', 'redirect_to_directory_of_same_name', 'crawl_ftp', 'ftp_symlinks', 'continue_with_partial_files', 'long_line', 'raw_random', 'truncated', 'odd_location',
+PROBES = {'C09': ['layer.http', 'layer.web', 'layer.robots', 'layer.ftp', 'layer.crawl', 'robots_redirected_to_other_origin', 'crawl_with_warc', 'crawl_url_rewriting_option', 'crawl_post_data', 'redirect_to_directory_of_same_name', 'crawl_ftp', 'ftp_odd_size_reply', 'ftp_symlinks', 'continue_with_partial_files', 'long_line', 'raw_random', 'truncated', 'odd_location',
                   'odd_cookie', 'cookie_flood', 'bad_compression', 'ftp_reply_mutated', 'ftp_listing_mutated', 'hostile_html', 'hostile_css', 'hostile_js',
                   'hostile_sitemap', 'hostile_robots', 'real_file_writer', 'per_url_error_seen', 'healthy_fetched_after_hostile', 'reset', 'stall']}
 INFO = {'C09': {
@@ -536,6 +536,10 @@ def layer_crawl(tape, r, tier):
                 ftp_faults[at] = ('reply', FTP_BAD_REPLIES[tape.draw(len(FTP_BAD_REPLIES), 'crawl.ftp.reply')]) if kind == 'reply' else kind
             if tape.chance(1, 3, 'crawl.ftp.pasv_reuse'):
                 ftp_faults['pasv_reuse'] = True
+            if tape.chance(1, 4, 'crawl.ftp.size_reply'):
+                ftp_faults['size_reply'] = tape.choice((b'213 12 bytes\r\n', b'213 \r\n', b'550 no size here\r\n', b'213 -5\r\n',
+                                                        b'213 99999999999999999999999\r\n', b'213 1e3\r\n'), 'crawl.ftp.size_reply.v')
+                r.probes['ftp_odd_size_reply'] += 1
             if tape.chance(1, 4, 'crawl.ftp.symlinks'):
                 # symbolic links in the listings, the same name more than once; --retr-symlinks=off makes wpull create them locally
                 d0 = sorted(p for p, v in ftp_tree.items() if isinstance(v, list))[0]
@@ -578,6 +582,15 @@ def layer_crawl(tape, r, tier):
                 # answer 416, or to send a 206 that does not fit
                 argv.append('--continue')
                 r.probes['continue_with_partial_files'] += 1
+                # (files of the FTP origin as well: the client then asks SIZE and REST before RETR)
+                for fu in ftp_urls:
+                    rel = fu.split('://', 1)[1]
+                    if rel.endswith('/') or ':' in rel.split('/', 1)[0]:
+                        continue
+                    fp = os.path.join(sandbox, rel)
+                    os.makedirs(os.path.dirname(fp), exist_ok=True)
+                    with open(fp, 'wb') as f:
+                        f.write(b'conte')
                 for pg in pages[:tape.between(1, 3, 'continue.n')]:
                     if pg.origin.key() != main.key():
                         continue
